@@ -698,6 +698,8 @@ type vxC17Case struct {
 	Post      int          `json:"post"` // queries after Close
 	TOLimit   int          `json:"timeout_limit,omitempty"` // >0: the deprecated global TimeoutLimit: a connection is closed after that many request timeouts (held queries time out)
 	Keyspace  bool         `json:"keyspace,omitempty"` // ClusterConfig.Keyspace set: every pool connection sends USE as its first request (so hs step 2 fails the USE)
+	Retry0    bool         `json:"retry0,omitempty"` // a ReconnectionPolicy that allows no connection attempt at all (MaxRetries 0): no pool can ever be filled
+	Ready     bool         `json:"ready,omitempty"`  // the host selection policy is a ReadyPolicy (SingleHostReadyPolicy): Session.init stops waiting as soon as one host is connected
 	CloseErr  bool         `json:"close_err,omitempty"` // closing a connection closes it and returns an error (as a TLS connection whose close_notify cannot be sent does)
 }
 
@@ -1294,7 +1296,23 @@ func vxC17Run(c *vxC17Case, k *vstats.Case) error {
 		if c.TokenAw {
 			cfg.PoolConfig.HostSelectionPolicy = TokenAwareHostPolicy(RoundRobinHostPolicy())
 		}
+		if c.Ready {
+			inner := cfg.PoolConfig.HostSelectionPolicy
+			if inner == nil {
+				inner = RoundRobinHostPolicy()
+			}
+			cfg.PoolConfig.HostSelectionPolicy = SingleHostReadyPolicy(inner)
+		}
+		if c.Retry0 {
+			cfg.ReconnectionPolicy = &ConstantReconnectionPolicy{MaxRetries: 0, Interval: time.Millisecond}
+		}
 	})
+	if c.Ready {
+		class("ready policy")
+	}
+	if c.Retry0 {
+		class("reconnection policy without attempts")
+	}
 	out := &vxC17Outcome{}
 	var hard error // first hard violation
 	var timing *vxC17Timing
@@ -1899,6 +1917,8 @@ func vxC17DrawCase(t *rapid.T, small bool) *vxC17Case {
 	c.Post = rapid.IntRange(1, 4).Draw(t, "post")
 	c.Keyspace = rapid.IntRange(0, 2).Draw(t, "keyspace") == 0
 	c.CloseErr = rapid.IntRange(0, 3).Draw(t, "close_err") == 0
+	c.Ready = rapid.IntRange(0, 3).Draw(t, "ready") == 0
+	c.Retry0 = rapid.IntRange(0, 11).Draw(t, "retry0") == 0
 	if rapid.IntRange(0, 7).Draw(t, "tolimit") == 0 {
 		// the limit bites when one connection collects limit+1 timeouts: one connection per host, at most two
 		// hosts, held queries that are never answered (added to the first group below)
